@@ -18,6 +18,7 @@ struct GSession {
     int applies = 0;
     bool fv_late = false, fv_done = false;
     double fmin = 1e9, fmax = 2e9;
+    bool has_unknown = false;
 };
 
 struct CGen {
@@ -38,9 +39,36 @@ Plan cal_gen(const std::string &check, const std::string &tier, uint64_t seed, l
     std::string id = check.substr(0, 3);
     bool thorough = tier == "thorough";
     bool c20 = id == "C20", c17 = id == "C17", c10 = id == "C10", c16 = id == "C16" || id == "C11" || id == "C03" || id == "C07";
+    bool c07 = id == "C07";
     bool faults = check.find("faulty") != std::string::npos;
     plan.cfg["callback"] = rng.chance(0.85) ? 1 : 0;
-    plan.cfg["solo_twin"] = (c16 || c17) ? 1 : 0;
+    plan.cfg["solo_twin"] = ((c16 && !c07) || c17) ? 1 : 0;
+    plan.cfg["read_frag"] = rng.chance(0.5) ? 0L : rng.pick(std::vector<long>{1, 2, 3, 7, 64});
+    plan.cfg["bufsize"] = rng.chance(0.5) ? -1L : rng.pick(std::vector<long>{0, 1, 7, 64, 4096});
+    int nsaved = 0;
+    auto prop_op = [&](int task) {
+	static const char *KEYS[] = {"a", "b", "note", "x1", "my key", "1st", "a.b", "c=d", "h#", "t ", "\xc3\xa9", "k[0]", "-d", "100%", "~", "null"};
+	static const char *VALS[] = {"v", "1", "3.14", "", " ", " lead", "trail ", "~", "null", "true", "0x1", ": ", "- x", "#c", "a #c", "key: v", "[a]", "{a: b}", "'q'", "\"dq\"", "|", "a\nb", "\n", "a\n", "\ta", "\xc3\xa9", "\xe2\x80\xa8", "\xc2\x85", "%s%d%n", "a=b", "---", "x: ", "\\", "it's", "0", ".5", "<<", "!!str a"};
+	Op o = g.mk(rng.chance(0.88) ? "vp_set" : "vp_del", {}, task);
+	int n = (int)rng.range(1, 3);
+	o.i.assign(16, 0);
+	o.i[15] = task;
+	o.i[0] = rng.chance(0.4) ? -1 : (long)rng.below(6);
+	o.i[2] = rng.chance(0.2);
+	o.i[3] = rng.chance(0.7) ? 0 : 2;
+	o.i[4] = o.k == "vp_set" && rng.chance(0.1) ? 1 : 0;
+	o.i[5] = rng.chance(0.15);
+	o.i[7] = n;
+	for (int q = 0; q < n; ++q) {
+	    if (q > 0 && rng.chance(0.3)) o.s.push_back(rng.chance(0.7) ? strf("i:%ld", (long)rng.below(3)) : std::string("a:"));
+	    else o.s.push_back(std::string("k:") + KEYS[rng.below(sizeof KEYS / sizeof *KEYS)]);
+	}
+	if (o.k == "vp_del") for (auto &e : o.s) if (e == "a:") e = "i:0";
+	o.s.push_back(VALS[rng.below(sizeof VALS / sizeof *VALS)]);
+	o.s.push_back("");
+	if (o.k == "vp_del" && rng.chance(0.3)) o.i[1] = 3;
+	plan.ops.push_back(o);
+    };
     int nsess = c16 ? (int)rng.range(2, 4) : c20 ? (int)rng.range(1, 2) : 1;
     if (c10) nsess = (int)rng.range(1, 2);
     plan.cfg["sessions"] = nsess;
@@ -57,6 +85,7 @@ Plan cal_gen(const std::string &check, const std::string &tier, uint64_t seed, l
     // vector (frequency dependent) versions covering the global band with margin
     auto mkvector = [&](int knots, int gclass, double lo, double hi, int task) { Op o = g.mk("mkvector", {knots, (long)rng.below(1000000), gclass}, task); o.d = {lo, hi}; plan.ops.push_back(o); return g.nparams++; };
 
+    long unknown_ref = -1;
     std::vector<GSession> sess((size_t)nsess);
     for (int s = 0; s < nsess; ++s) sess[(size_t)s].sid = s;
 
@@ -75,7 +104,7 @@ Plan cal_gen(const std::string &check, const std::string &tier, uint64_t seed, l
 	S.F = (int)rng.range(1, c10 ? 5 : 3);
 	S.ab = rng.chance(0.4);
 	S.fmin = gfmin * (1 + 0.2 * rng.uni()); S.fmax = S.fmin + (gfmax - gfmin) * (0.3 + 0.6 * rng.uni());
-	S.todo.clear(); S.next = 0; S.applies = 0; S.fv_late = (c10 || c16) && rng.chance(0.2); S.fv_done = !S.fv_late;
+	S.todo.clear(); S.next = 0; S.applies = 0; S.has_unknown = false; S.fv_late = (c10 || c16) && rng.chance(0.2); S.fv_done = !S.fv_late;
 	S.name = (int)rng.below(6);
 	bool need_full = cls != W8;
 	auto shape = [&]() { return need_full ? true : rng.chance(0.5); };
@@ -144,6 +173,23 @@ Plan cal_gen(const std::string &check, const std::string &tier, uint64_t seed, l
 	    int p = (int)rng.range(1, P);
 	    S.todo.push_back(GStd{0, shape(), (int)rng.below(2), p, 0, {v, 0, 0, 0}, 1.0});
 	}
+	// an additional reflect whose value the library has to find (shared between sessions sometimes)
+	if ((cls == W8 || cls == W10) && S.P <= 2 && rng.chance(c16 ? 0.3 : 0.1)) {
+	    long u;
+	    if (unknown_ref >= 0 && rng.chance(0.6)) u = unknown_ref;
+	    else {
+		double ph = 0.15 * (2 * rng.uni() - 1);
+		double mag = 0.85 + 0.1 * rng.uni();
+		bool neg = rng.chance(0.5);
+		Op o = g.mk("mkunknown", {neg ? -3 : -2}, S.sid);
+		o.d = {(neg ? -1 : 1) * mag * cos(ph), mag * sin(ph)};
+		plan.ops.push_back(o);
+		u = g.nparams++;
+		unknown_ref = u;
+	    }
+	    S.todo.push_back(GStd{0, shape(), 0, (int)rng.range(1, S.P), 0, {u, 0, 0, 0}, 1.0});
+	    S.has_unknown = true;
+	}
 	if (S.ab && rng.chance(0.3)) for (auto &st : S.todo) st.ab_scale = 0.5 + 2 * rng.uni();
 	// scheduler-chosen order
 	for (size_t k = S.todo.size(); k > 1; --k) std::swap(S.todo[k - 1], S.todo[(size_t)rng.below((long)k)]);
@@ -196,7 +242,16 @@ Plan cal_gen(const std::string &check, const std::string &tier, uint64_t seed, l
 		S.state = 2;
 		continue;
 	    }
-	    if (S.state == 2) { plan.ops.push_back(g.mk("addcal", {S.sid, S.name}, S.sid)); S.state = 3; continue; }
+	    if (S.state == 2) {
+		plan.ops.push_back(g.mk("addcal", {S.sid, S.name}, S.sid)); S.state = 3;
+		if (S.has_unknown && unknown_ref >= 0) for (int q = (int)rng.range(1, 3); q > 0; --q) {
+		    Op o = g.mk("getpv", {unknown_ref, 0, 0}, S.sid);
+		    double w = rng.uni();
+		    o.d = {w < 0.6 ? S.fmin + (S.fmax - S.fmin) * rng.uni() : w < 0.8 ? S.fmax * (1.2 + rng.uni()) : S.fmin * (0.2 + 0.6 * rng.uni())};
+		    plan.ops.push_back(o);
+		}
+		continue;
+	    }
 	    if (S.state == 3) {
 		if (S.applies < 2 && rng.chance(0.8)) {
 		    long twin = c17 || rng.chance(0.5) ? (long)rng.below(1 << 12) : 0;
@@ -227,6 +282,28 @@ Plan cal_gen(const std::string &check, const std::string &tier, uint64_t seed, l
 	    // catalogue task
 	    double u = rng.uni();
 	    int task = nsess + 1;
+	    if (c07) {
+		double v = rng.uni();
+		if (v < 0.45) { prop_op(task); continue; }
+		if (v < 0.55) { long fp = rng.chance(0.2) ? 1000 : rng.range(1, 40), dp = rng.chance(0.25) ? 1000 : rng.range(1, 40); if (rng.chance(0.03)) fp = 0; plan.ops.push_back(g.mk("vprec", {fp, dp}, task)); continue; }
+		if (v < 0.75) {
+		    Op o = g.mk("vsave", {rng.chance(0.15) ? 1 : 0}, task);
+		    o.s = {strf("c%d.vnacal", (int)rng.below(2))};
+		    if (faults && rng.chance(0.3)) { Fault f; double w2 = rng.uni(); if (w2 < 0.4) { f.t = "alloc.vna"; f.n = rng.range(1, 40); } else if (w2 < 0.6) { f.t = "alloc.yaml"; f.n = rng.range(1, 200); } else if (w2 < 0.85) { f.t = "write.err"; f.n = rng.range(0, 3000); f.e = ENOSPC; } else if (w2 < 0.93) f.t = "close.err"; else { f.t = "open.fail"; f.e = EACCES; } o.f.push_back(f); }
+		    plan.ops.push_back(o);
+		    ++nsaved;
+		    continue;
+		}
+		if (v < 0.9 && nsaved > 0) {
+		    Op o = g.mk("vload", {0}, task);
+		    o.s = {strf("c%d.vnacal", (int)rng.below(2))};
+		    if (faults && rng.chance(0.3)) { Fault f; double w2 = rng.uni(); if (w2 < 0.4) { f.t = "alloc.vna"; f.n = rng.range(1, 120); } else if (w2 < 0.6) { f.t = "alloc.yaml"; f.n = rng.range(1, 300); } else if (w2 < 0.8) { f.t = "read.eio"; f.n = rng.range(0, 3000); } else { f.t = "read.eof"; f.n = rng.range(0, 3000); } o.f.push_back(f); }
+		    plan.ops.push_back(o);
+		    // sessions do not survive the restart
+		    for (auto &S : sess) S.state = 0;
+		    continue;
+		}
+	    }
 	    if (u < 0.3) plan.ops.push_back(g.mk("query", {0}, task));
 	    else if (u < 0.45) plan.ops.push_back(g.mk("delcal", {(long)rng.below(6), (long)rng.range(-1, 8)}, task));
 	    else if (u < 0.6) plan.ops.push_back(g.mk("apply", {(long)rng.below(6), (long)rng.below(1000000), (long)rng.below(3), 0, 0}, task));
@@ -247,6 +324,13 @@ Plan cal_gen(const std::string &check, const std::string &tier, uint64_t seed, l
 	}
 	if (S.state == 2) { plan.ops.push_back(g.mk("addcal", {S.sid, S.name}, S.sid)); S.state = 3; }
 	if (S.state == 3 && S.applies == 0) plan.ops.push_back(g.mk("apply", {S.name, (long)rng.below(1000000), (long)rng.below(3), 0, c17 || c16 ? (long)rng.below(1 << 12) : 0}, S.sid));
+    }
+    if (c07) {
+	for (int q = (int)rng.below(4); q > 0; --q) prop_op(nsess + 1);
+	if (rng.chance(0.6)) { long fp = rng.chance(0.3) ? 1000 : rng.range(1, 40), dp = rng.chance(0.4) ? 1000 : rng.range(4, 40); plan.ops.push_back(g.mk("vprec", {fp, dp}, nsess + 1)); }
+	Op sv = g.mk("vsave", {rng.chance(0.15) ? 1 : 0}, nsess + 1); sv.s = {"final.vnacal"}; plan.ops.push_back(sv);
+	Op ld = g.mk("vload", {0}, nsess + 1); ld.s = {"final.vnacal"}; plan.ops.push_back(ld);
+	if (rng.chance(0.5)) { Op sv2 = g.mk("vsave", {0}, nsess + 1); sv2.s = {"again.vnacal"}; plan.ops.push_back(sv2); Op ld2 = g.mk("vload", {0}, nsess + 1); ld2.s = {"again.vnacal"}; plan.ops.push_back(ld2); }
     }
     plan.ops.push_back(g.mk("query", {0}, nsess + 1));
     return plan;
